@@ -57,6 +57,7 @@ T5raw == << "local", "x", ":", "<T", "number", "T>", "=", "1",
 T6raw == << "type", "U", "=", "<T", "\"a\"", "|", "\"b\"", "|", "nil", "T>",
             "type", "I", "=", "<T", "A", "&", "{", "z", ":", "(", "number", ")", "}", "T>",
             "type", "F", "=", "<T", "(", "a", ":", "number", ",", "b", ":", "string", ")", "->", "(", ")", "T>",
+            "type", "V", "=", "<T", "(", "number", ",", "...", "string", ")", "->", "(", "number", ",", "...", "any", ")", "T>",   \* variadic ARGUMENT type behind a comma
             "local", "g", "=", "function", "(", "a", ":", "<T", "number", "?", "T>", ")", ":", "<T", "...", "number", "T>", "return", "a", "end",
             "local", "z", "=", "(", "g", "::", "<T", "any", "T>", ")", "::", "<T", "M", ".", "B", "<", "number", ">", "T>",
             "local", "v", ":", "<T", "typeof", "(", "z", ")", "T>", "=", "z",
